@@ -48,7 +48,7 @@ META = dict(
 )
 
 TOL_ATOMS = ('quadpsd', 'quadnsd', 'quaddiag', 'quadnonsym', 'quadnonsym2', 'quadsing3', 'quadones3', 'quadrank1')
-TOWER_ATOMS = ('power', 'powerarr', 'pnorm', 'gmean')
+TOWER_ATOMS = ('power', 'powerarr', 'powerbc', 'powerbc2d', 'pnorm', 'gmean')
 
 
 def cases(tier, seed, rnd):
